@@ -220,23 +220,24 @@ func countOps(ops []Op) (n, levels int) {
 
 // space describes one bounded program space.
 type space struct {
-	Name   string
-	Levels int         // call levels (1 = only the entry body)
-	NT     string      // non-failing simple ops that may fill a slot
-	TM     string      // failing ops that may end a sequence
-	B      int         // max simple ops per body (besides the nested call and the failing op)
-	G      int         // max simple ops in the whole call tree
-	F      int         // max failing ops in the whole call tree
-	Full   bool        // every slot holds 'E' (B, G ignored): maximal observability of what persisted
-	Kinds  [3][]string // nested-call prefixes available to a caller at level 1, 2 (index = caller level)
-	Shapes []string    // body shapes with a nested call
-	Leaves []string    // body shapes without one
-	Block  bool        // the programs are also executed in real blocks
+	Name    string
+	Levels  int         // call levels (1 = only the entry body)
+	NT      string      // non-failing simple ops that may fill a slot
+	TM      string      // failing ops that may end a sequence
+	B       int         // max simple ops per body (besides the nested call and the failing op)
+	G       int         // max simple ops in the whole call tree
+	F       int         // max failing ops in the whole call tree
+	Full    bool        // every slot holds 'E' (B, G ignored): maximal observability of what persisted
+	Kinds   [3][]string // nested-call prefixes available to a caller at level 1, 2 (index = caller level)
+	Shapes  []string    // body shapes with a nested call
+	Leaves  []string    // body shapes without one
+	Block   bool        // the programs are also executed in real blocks
+	FreeLit bool        // a throw that is part of a shape is not counted against F
 }
 
 // Shape tokens: p = slot (empty or one NT op), t = optional failing op closing the
-// sequence, H = the nested call, other characters literal. A literal '!'
-// counts as a failing op.
+// sequence, H = the nested call, other characters literal. A literal '!' counts
+// as a failing op unless the space sets FreeLit.
 var (
 	holeShapes = []string{
 		"pHpt",           // no TRY around the call
@@ -368,12 +369,16 @@ func (sp *space) fill(sh string, n item, G, F int, slot byte, emit func(item)) {
 			buf = append(buf, n.s...)
 			rec(i+1, b, g+n.g, f+n.f, fdead, sdead, true)
 			buf = buf[:l]
-		case '!':
-			if dead || f+1 > F {
+		case '!': // part of the shape
+			nf := f + 1
+			if sp.FreeLit {
+				nf = f
+			}
+			if dead || nf > F {
 				return
 			}
 			buf = append(buf, '!')
-			rec(i+1, b, g, f+1, fdead, true, true)
+			rec(i+1, b, g, nf, fdead, true, true)
 			buf = buf[:l]
 		case '{':
 			buf = append(buf, '{')
